@@ -89,6 +89,10 @@ func (x xmlExporter) Map(m value.Map) MapExporter {
 func isSimpleMap(m value.Map) bool {
 	isSimple := true
 	m.Iter(func(key string, e value.Value) bool {
+		if !isXmlName(key) {
+			// the key can not be used as the name of an attribute
+			isSimple = false
+		}
 		if _, ok := e.ToMap(); ok {
 			isSimple = false
 		}
@@ -101,6 +105,21 @@ func isSimpleMap(m value.Map) bool {
 		return true
 	})
 	return isSimple
+}
+
+// isXmlName returns true if the key can be written as an attribute name.
+func isXmlName(key string) bool {
+	if key == "" {
+		return false
+	}
+	for i, r := range key {
+		isLetter := (r >= 'a' && r <= 'z') || (r >= 'A' && r <= 'Z') || r == '_'
+		isOther := (r >= '0' && r <= '9') || r == '-' || r == '.'
+		if !(isLetter || (i > 0 && isOther)) {
+			return false
+		}
+	}
+	return true
 }
 
 func (x xmlExporter) Custom(value.Value) (bool, error) {
